@@ -20,7 +20,7 @@ ASSUMPTIONS = common.ASSUMPTIONS + [
 ]
 UNCOVERED = [
     'binary packet layer: the compose direction is covered (packet units: payload an arbitrary byte string); the round trip of whole SSH records (parse of the message variants incl. KEXINIT) exceeds the exploration budget',
-    'KEXINIT is covered at the message level only (field order and framing with the name-lists used through their class contracts; K5 re-serialisation); DH (group) exchange REPLY messages (host key inside), DISCONNECT (utf-8 text), banner grammar (text layer), OpenSSH certificates and X.509 chains: K6 not stated (K3 of the certificate classes is in the thorough tier of C01)',
+    'KEXINIT is covered at the message level only (field order and framing with the name-lists used through their class contracts; K5 re-serialisation); DH (group) exchange REPLY messages (host key inside), the parse direction of DISCONNECT (utf-8 text), banner grammar (text layer), OpenSSH certificates and X.509 chains: K6 not stated (K3 of the certificate classes is in the thorough tier of C01)',
     'the parse direction of the host key blobs (external PublicKey objects)',
 ]
 BOUNDED = ['name-lists with at most 1 name in the symbolic vector objects (the names themselves are unbounded text)']
@@ -259,6 +259,9 @@ def _units_body(tier, seed):
     from cryptoparser.ssh import record as SR
     for cls in (SR.SshRecordInit, SR.SshRecordKexDH, SR.SshRecordKexDHGroup):
         out.append(packet_unit(cls))
+    dm = by_name['SshDisconnectMessage']
+    out.append(Unit('K6-compose-only/%s' % common.class_key(dm), e2.compose_only_unit(dm), replay=k6family.replay_for(dm), clause='K6',
+                    functions=['SshDisconnectMessage.compose', 'spec.ssh.disconnect']))
     from checks import kexinit
     out.append(kexinit.k6_unit())
     out.append(kexinit.k5_unit())
